@@ -395,10 +395,10 @@ impl<'a> PG<'a> {
         }
         16 => {
           self.endless = true;
-          Src::IntervalAt(*self.rng.pick(&[-5i64, 0, 2]), [2, 5][self.rng.below(2)])
+          Src::IntervalAt(*self.rng.pick(&[-5i64, 0]), [2, 5][self.rng.below(2)])
         }
         17 | 18 => Src::Timer(V::I(self.rng.range(0, 2)), [0, 1, 4, 10][self.rng.below(4)]),
-        19 => Src::TimerAt(V::I(1), *self.rng.pick(&[-5i64, 0, 3])),
+        19 => Src::TimerAt(V::I(1), *self.rng.pick(&[-5i64, 0])),
         20 => Src::Future(self.id() + 300, self.scripted(false)),
         21 => Src::FutureRes(self.id() + 300, self.scripted(true)),
         22 => Src::Stream(self.id() + 300, self.scripted(false)),
